@@ -10,7 +10,10 @@ package executors
 // NewBulkExecutor / NewChunkExecutor / With* / Add / Flush / Wait and the containers to the Lean container model
 // (Containers.lean, executed over its slice heap by the driver).
 //
-// ops:  new <k> bulk|chunk <max|def> <iv|def>     obs: max=<threshold of the container> iv=<pe.interval>
+// ops:  new <k> bulk|chunk <options>     obs: max=<threshold of the container> iv=<pe.interval>
+//                         <options> = `-` (none: the package defaults) or a comma-separated list, applied IN THIS ORDER,
+//                         of t<n> (WithBulkTasks / WithChunkBytes) and i<n> (WithBulkInterval / WithFlushInterval):
+//                         repeated options, interval before threshold, zero and negative values
 //       add <k> <x>       one task (x = 8*id + size code, as in TestVerifC11)      obs: c=<pending tasks> sz=<chunk bytes|->
 //                                                              [e=<Add calls that returned a non-nil error>]
 //       addn <k> <n> <code> <first id>   n tasks with consecutive ids and that size code     obs: as add
@@ -87,12 +90,25 @@ func c11qGen(r *verifh.Rng) []verifh.Section {
 		kinds := make([]string, ninst)
 		mk := func(k int) {
 			kinds[k] = r.PickS("bulk", "chunk")
-			max := r.PickS("def", "def", "-1", "0", "1", "1", "2", "3", "5", "1000")
+			maxes := []string{"-1", "0", "1", "1", "2", "3", "5", "1000"}
 			if kinds[k] == "chunk" {
-				max = r.PickS("def", "-3", "0", "1", "1", "3", "5", "8", "12", "1048576")
+				maxes = []string{"-3", "0", "1", "1", "3", "5", "8", "12", "1048576"}
 			}
-			iv := r.PickS("def", "def", "0", "-5", "1", "1000000")
-			ops = append(ops, fmt.Sprintf("new %d %s %s %s", k, kinds[k], max, iv))
+			ivs := []string{"0", "-5", "1", "1000000"}
+			var opts []string
+			// every combination: none / only one kind / both in either order / a kind repeated (the last one wins)
+			for n := r.Pick(0, 0, 1, 1, 2, 2, 3, 4); n > 0; n-- {
+				if r.Chance(3, 5) {
+					opts = append(opts, "t"+r.PickS(maxes...))
+				} else {
+					opts = append(opts, "i"+r.PickS(ivs...))
+				}
+			}
+			o := "-"
+			if len(opts) > 0 {
+				o = strings.Join(opts, ",")
+			}
+			ops = append(ops, fmt.Sprintf("new %d %s %s", k, kinds[k], o))
 		}
 		for k := 0; k < ninst; k++ {
 			mk(k)
@@ -147,11 +163,24 @@ func TestVerifC11Seq(t *testing.T) {
 			}
 			k := verifh.Atoi(op[1])
 			if op[0] == "new" {
-				if len(op) != 5 {
+				if len(op) != 4 {
 					return "bad-op"
 				}
 				if old := insts[k]; old != nil {
 					old.wait()
+				}
+				type optTok struct {
+					thr bool
+					v   int
+				}
+				var toks []optTok
+				if op[3] != "-" {
+					for _, o := range strings.Split(op[3], ",") {
+						if len(o) < 2 || (o[0] != 't' && o[0] != 'i') {
+							return "bad-op"
+						}
+						toks = append(toks, optTok{o[0] == 't', verifh.Atoi(o[1:])})
+					}
 				}
 				in := &c11qInst{}
 				exec := func(tasks []any) {
@@ -166,11 +195,12 @@ func TestVerifC11Seq(t *testing.T) {
 				switch op[2] {
 				case "bulk":
 					var opts []BulkOption
-					if op[3] != "def" {
-						opts = append(opts, WithBulkTasks(verifh.Atoi(op[3])))
-					}
-					if op[4] != "def" {
-						opts = append(opts, WithBulkInterval(time.Duration(verifh.Atoi(op[4]))))
+					for _, o := range toks {
+						if o.thr {
+							opts = append(opts, WithBulkTasks(o.v))
+						} else {
+							opts = append(opts, WithBulkInterval(time.Duration(o.v)))
+						}
 					}
 					be := NewBulkExecutor(exec, opts...)
 					in.pe = be.executor
@@ -190,11 +220,12 @@ func TestVerifC11Seq(t *testing.T) {
 					return fmt.Sprintf("max=%d iv=%d", be.container.maxTasks, int64(in.pe.interval))
 				case "chunk":
 					var opts []ChunkOption
-					if op[3] != "def" {
-						opts = append(opts, WithChunkBytes(verifh.Atoi(op[3])))
-					}
-					if op[4] != "def" {
-						opts = append(opts, WithFlushInterval(time.Duration(verifh.Atoi(op[4]))))
+					for _, o := range toks {
+						if o.thr {
+							opts = append(opts, WithChunkBytes(o.v))
+						} else {
+							opts = append(opts, WithFlushInterval(time.Duration(o.v)))
+						}
 					}
 					ce := NewChunkExecutor(exec, opts...)
 					in.pe = ce.executor
